@@ -1390,6 +1390,8 @@ func makeStructArshaler(t reflect.Type) *arshaler {
 					if !v.IsValid() {
 						err := newUnmarshalErrorBefore(dec, t, errNilField)
 						if !uo.Flags.Get(jsonflags.ReportErrorsWithLegacySemantics) {
+							uo.Flags = flagsOriginal // do not leak the field's tag flags
+							uo.Format = ""
 							return err
 						}
 						errUnmarshal = cmp.Or(errUnmarshal, err)
